@@ -131,3 +131,53 @@ CONTRACTS += [
              note='date and time sub-parsers abstracted by their contracts (match_to_date / match_to_time posts); '
                   'am/pm words in the surrounding text assumed absent'),
 ]
+
+_NONE_BEFORE_WEEKDAY = {'on_regex': 'none', 'special_day_regex': 'none', 'special_day_with_num_regex': 'none',
+                        'relative_week_day_regex': 'none'}
+_WD_GROUP = {'mode': 'full', 'groups': {'weekday': 'weekday_str'}}
+
+
+def _implicit(cid, props, rx, ensures, extra_params=None, requires=()):
+    params = dict(self=DATE_PARSER, source=Str(), reference=DateTime(1950, 2090), weekday_str=Str(10))
+    params.update(extra_params or {})
+    env = dict(_NONE_BEFORE_WEEKDAY)
+    env.update(rx)
+    return Contract(cid, BD + 'parse_implicit_date', props, params=params, regex_env=env, ensures=ensures, requires=list(requires))
+
+
+_W = 'self.config.day_of_week[weekday_str]'
+_ISOW = f'({_W} if {_W} >= 1 else 7)'
+
+CONTRACTS += [
+    _implicit('dp.implicit.special_day', ['C08'], {'special_day_regex': 'full'},
+              [('today-plus-swift-days',
+                'result.success and result.future_value == result.past_value and '
+                'ordinal_of(result.future_value) == ordinal_of(reference) + self.config.get_swift_day(source.strip()) and '
+                'sec_of_day(result.future_value) == 0'),
+               ('timex-is-that-date', 'result.timex == date_str(result.future_value.year, result.future_value.month, result.future_value.day)')]),
+    _implicit('dp.implicit.next_weekday', ['C08'], {'next_regex': _WD_GROUP},
+              [('that-weekday-of-the-following-iso-week',
+                'result.success and result.future_value == result.past_value and '
+                f'result.future_value.isoweekday() == {_ISOW} and '
+                'monday_of(ordinal_of(result.future_value)) == monday_of(ordinal_of(reference)) + 7'),
+               ('timex-is-that-date', 'result.timex == date_str(result.future_value.year, result.future_value.month, result.future_value.day)')]),
+    _implicit('dp.implicit.this_weekday', ['C08'], {'next_regex': 'none', 'this_regex': _WD_GROUP},
+              [('that-weekday-of-the-current-iso-week',
+                'result.success and result.future_value == result.past_value and '
+                f'result.future_value.isoweekday() == {_ISOW} and '
+                'monday_of(ordinal_of(result.future_value)) == monday_of(ordinal_of(reference))'),
+               ('timex-is-that-date', 'result.timex == date_str(result.future_value.year, result.future_value.month, result.future_value.day)')]),
+    _implicit('dp.implicit.last_weekday', ['C08'], {'next_regex': 'none', 'this_regex': 'none', 'last_regex': _WD_GROUP},
+              [('that-weekday-of-the-preceding-iso-week',
+                'result.success and result.future_value == result.past_value and '
+                f'result.future_value.isoweekday() == {_ISOW} and '
+                'monday_of(ordinal_of(result.future_value)) == monday_of(ordinal_of(reference)) - 7'),
+               ('timex-is-that-date', 'result.timex == date_str(result.future_value.year, result.future_value.month, result.future_value.day)')]),
+    _implicit('dp.implicit.bare_weekday', ['C09'],
+              {'next_regex': 'none', 'this_regex': 'none', 'last_regex': 'none', 'week_day_regex': _WD_GROUP},
+              [('timex-leaves-the-week-open', f'result.success and result.timex == "XXXX-WXX-" + str({_ISOW})'),
+               ('future-is-the-earliest-such-weekday-on-or-after-the-reference-date',
+                f'result.future_value == date_with(next_weekday_after(ordinal_of(reference) - 1, {_ISOW}), 0)'),
+               ('past-is-the-latest-such-weekday-strictly-before-the-reference-date',
+                f'result.past_value == date_with(last_weekday_before(ordinal_of(reference), {_ISOW}), 0)')]),
+]
